@@ -13,7 +13,8 @@ PROPERTIES = {
     ),
     "C13": dict(
         modules=["contracts.c13_ws"],
-        bounded=[_bounded.lazy("contracts.e2e_plugins", "bounded_plugins"), _bounded.lazy("contracts.e2e_variables", "bounded_method_locals")],
+        bounded=[_bounded.lazy("contracts.e2e_plugins", "bounded_plugins"), _bounded.lazy("contracts.e2e_variables", "bounded_method_locals"),
+                 _bounded.lazy("contracts.c11_multipart", "bounded_constructors")],
         explanation="frame handler outcome table (complete: loop-free), senders, and the subscription iterator with a "
                     "prefix invariant over the server's frame sequence",
         assumptions=["interoperability with a live websockets server beyond the call signature is outside this family"],
@@ -21,7 +22,7 @@ PROPERTIES = {
     "C11": dict(
         modules=["contracts.c11_clients"],
         bounded=[_bounded.lazy("contracts.e2e_outcomes", "bounded_outcomes"), _bounded.lazy("contracts.c11_multipart", "bounded_separation"), _bounded.lazy("contracts.c11_multipart", "bounded_wire"),
-                 _bounded.lazy("contracts.c11_multipart", "bounded_agreement")],
+                 _bounded.lazy("contracts.c11_multipart", "bounded_agreement"), _bounded.lazy("contracts.c11_multipart", "bounded_constructors")],
         explanation="run-time base clients: value conversion, JSON and multipart request construction, variables processing and the "
                     "json/multipart/telemetry dispatchers (each proved against recording stand-ins of its callees), one shared contract "
                     "instantiated for each of the four bundled clients; upload separation (separate_files) by the exhaustive bounded stand-in",
